@@ -175,8 +175,14 @@ def validate_child_id(
     )
     child_range(child_id)
 
-    command = validate_command(data["command"])
-    message_type = validate_message_type(data["message_type"])
+    try:
+        raw_command = data["command"]
+        raw_message_type = data["message_type"]
+    except KeyError as exc:
+        raise ValidationError("The message is missing required fields.") from exc
+
+    command = validate_command(raw_command)
+    message_type = validate_message_type(raw_message_type)
 
     if (
         command == protocol.INTERNAL_COMMAND_TYPE
